@@ -27,9 +27,23 @@ def sub(rel, old, new):
 repl = {}
 a, b = sub("runtime/time.go", "\t\t\tt.rand = cheaprand()\n", "\t\t\tt.rand = verifTimerRand()\n")
 repl[a] = b
-a, b = sub("runtime/proc.go", "\t\t} else if pd.schedwhen+forcePreemptNS <= now {\n",
-           "\t\t} else if pd.schedwhen+forcePreemptNS <= now && verifSimState == 0 {\n")
-repl[a] = b
+# proc.go carries two substitutions: no time-slice pre-emption, and no periodic
+# look at the global run queue (its period is counted in a per-P tick that
+# survives from run to run, so a goroutine that called Gosched would overtake
+# the local queue at history-dependent moments)
+src = open(os.path.join(goroot, "src", "runtime/proc.go")).read()
+for old, new in (
+    ("\t\t} else if pd.schedwhen+forcePreemptNS <= now {\n",
+     "\t\t} else if pd.schedwhen+forcePreemptNS <= now && verifSimState == 0 {\n"),
+    ("\tif pp.schedtick%61 == 0 && !sched.runq.empty() {\n",
+     "\tif pp.schedtick%61 == 0 && !sched.runq.empty() && verifSimState == 0 {\n"),
+):
+    if src.count(old) != 1:
+        sys.exit("mkoverlay: runtime/proc.go: expected exactly one match of %r, found %d" % (old, src.count(old)))
+    src = src.replace(old, new)
+dst = os.path.join(out, "runtime_proc.go")
+open(dst, "w").write(src)
+repl[os.path.join(goroot, "src", "runtime/proc.go")] = dst
 new = os.path.join(out, "runtime_verif_sim.go")
 open(new, "w").write('''package runtime
 
